@@ -29,6 +29,12 @@ def main():
                 print(lg5[-4000:])
         except ImportError:
             ok5 = True
+        # tie (g): translate the current source and compile the bridge proofs (cached by content hash);
+        # a failure here is not a setup failure, the checks report it as a broken obligation
+        import gen_check
+        for kd in gen_check.BRIDGES:
+            r = gen_check.bridge(kd, check.REPO, check.BUILD, check.COQ)
+            print("source translation %s:" % kd, "ok" if r["ok"] else "BROKEN")
     return 0 if (ok and ok2 and ok3 and ok4 and ok5) else 1
 
 if __name__ == "__main__":
